@@ -1558,7 +1558,7 @@ def flatten_fmt(v):
 
 def _const_items(ctx):
     out = {}
-    for cr in (ctx.rspirv, ctx.spirv):
+    for cr in (ctx.rspirv, ctx.spirv, ctx.dis):
         for m in cr.modules():
             for it in cr.items(m):
                 if it.get("kind") in ("const", "static") and it.get("init") is not None and it.get("name") not in (None, "_"):
